@@ -104,6 +104,7 @@ inline void run_tunnel(Tape &t, Mode mode, Run &R)
 	// telemetry, syslog, a media stream without feedback); keep-alives must not depend on the other direction being busy or idle
 	int oneway = 0;
 	if (mode == CLEAN && t.chance(1, 4)) oneway = 1 + (int)t.below(2);
+	bool bulk_draw = oneway == 1 && t.chance(1, 2); int bulk_secs = bulk_draw ? t.range(62, 75) : 0;
 	if (mode == REDELIVER) { c.raw_mode = false; c.client_v6 = false; }
 	bool use_relay = !c.raw_mode && !c.client_v6 && (mode == REDELIVER || t.chance(1, mode == FAULTY ? 3 : 6));
 	if (use_relay) c.nameserver = sim::Addr::v4(192, 0, 2, 53, 53);
@@ -292,6 +293,28 @@ inline void run_tunnel(Tape &t, Mode mode, Run &R)
 		};
 		sim::W.after(period, *streamer);
 		R.classes.push_back(busy_side == 0 ? "busy-upstream-stream" : (busy_side == 1 ? "busy-downstream-stream" : "busy-both-ways"));
+	}
+	// CLEAN, one upstream one-way case in three: before the paced offers, a bulk upload -- the client's tun device always has the next packet
+	// waiting -- for 62..75 s.  A busy client sends no pings (every chunk cancels its ping timer), so for longer than the 60 s session
+	// timeout the server hears nothing but data from it; the session must stay alive and the paced packets afterwards are judged as usual.
+	if (mode == CLEAN && oneway == 1 && bulk_draw) {
+		uint64_t end = sim::W.now + (uint64_t)bulk_secs * 1000000;
+		uint64_t lat0 = sim::W.latency_us; sim::W.latency_us = 8000;   // a round trip of 16 ms keeps the number of queries per case affordable
+		sim::Instance *ci = s.cli[0];
+		uint32_t k = 0;
+		while (sim::W.now < end && !sim::W.livelock && ci->state != sim::ST_EXITED) {
+			while (ci->tun_in.size() < 2) {
+				Bytes body(40 + (k * 37) % 260); for (size_t j = 0; j < body.size(); j++) body[j] = (uint8_t)(k * 11 + j * 5);
+				sim::W.offer_tun(ci, scn::tun_packet(sip, cip[0], body, (uint16_t)(20000 + (k & 0x3fff)))); k++;
+			}
+			sim::W.run_for(2000);
+		}
+		sim::W.run_for(100000); sim::W.latency_us = lat0;
+		R.n_stream += (int)k;
+		R.classes.push_back("bulk-upload-longer-than-the-session-timeout");
+		uint64_t shift = sim::W.now + 2000000 - t0;
+		for (auto &o : R.offers) o.at += shift;
+		at += shift;
 	}
 	// run the offers
 	size_t next = 0;
